@@ -569,3 +569,90 @@ def verbatim_payload(ctx, rule, entries, fn, floor=6):
                     ctx.error(rule, '%s:%d payload argument `%s` of %s: not a verbatim capture and not a tabled rewrite; '
                                     'cannot decide' % (FJ, node.lineno, norm(a)[:60], what))
     ctx.floor('text payload arguments', n, floor)
+
+
+# ---------------------------------------------------------------- time of day: exact integer conversion of the fields
+
+USEC_OK = ("int({f}[:6].ljust(6, '0'))", "int(({f} + '000000')[:6])", "int({f}.ljust(6, '0')[:6])", "int(({f} + '0' * 6)[:6])")
+
+
+def time_fields_exact(ctx, rule, entries, fn):
+    """The h: branch builds datetime.time from the captured digit groups.  A time of day is not a float payload: every
+    field must be converted with int() on text; the fraction is cut/padded to six digits as TEXT.  float()/math.* on
+    a field loses a microsecond for about 1% of values; arithmetic on the unsliced length breaks for >= 7 digits."""
+    ent = [e for e in entries if e.pred == 'regex' and e.regex[0] == 'TIME_RE']
+    if len(ent) != 1:
+        ctx.error(rule, 'time branch of the decode cascade not found (%d candidates)' % len(ent))
+        return
+    block = ent[0].node
+    calls = [c for c in ast.walk(block) if isinstance(c, ast.Call) and norm(c.func) in ('datetime.time', 'time')]
+    if len(calls) != 1:
+        ctx.error(rule, 'time branch: %d datetime.time(...) calls; cannot decide' % len(calls))
+        return
+    call = calls[0]
+    where = '%s:%d' % (FJ, call.lineno)
+    # float arithmetic anywhere in the branch
+    for c in ast.walk(block):
+        if isinstance(c, ast.Call) and (norm(c.func) == 'float' or norm(c.func).startswith('math.') or norm(c.func) in ('round', 'Decimal')):
+            ctx.violation(rule, '%s::parse_embedded_scalar' % FJ, norm(c)[:120],
+                          'the well-formed value "h:06:30:00.000251" decodes to 06:30:00.000250: the seconds field goes through '
+                          'binary floating point (`%s`) and is truncated, which loses one microsecond for about 1%% of all '
+                          'microsecond values' % norm(c)[:50],
+                          'a field of a time of day is converted through float arithmetic instead of int() on its digits',
+                          file=FJ, line=c.lineno, engine='E7')
+            return
+    kw = {k.arg: k.value for k in call.keywords}
+    if 'microsecond' not in kw:
+        if len(call.args) >= 4:
+            kw['microsecond'] = call.args[3]
+        else:
+            ctx.error(rule, 'time branch: no microsecond argument; cannot decide')
+            return
+    usec = kw['microsecond']
+    exprs = [usec]
+    if isinstance(usec, ast.Name):
+        exprs = [d.value for d in ast.walk(block) if isinstance(d, ast.Assign) and len(d.targets) == 1
+                 and norm(d.targets[0]) == usec.id]
+    n_ok = 0
+    for e in exprs:
+        t = norm(e)
+        if isinstance(e, ast.Constant) and e.value == 0:
+            n_ok += 1
+            continue
+        # which name holds the fraction text?
+        names = sorted({x.id for x in ast.walk(e) if isinstance(x, ast.Name) and x.id not in ('int', 'len', 'str')})
+        good = any(t == form.format(f=nm) for nm in names for form in USEC_OK)
+        if good:
+            n_ok += 1
+            ctx.ob(rule, 'microseconds = first six fraction digits, zero-padded as text, then int() (`%s`)' % t, True, where)
+            continue
+        mo = None
+        for nm in names:
+            import re as _re
+            mo = _re.match(r'^int\(%s\[:6\]\) \* 10 \*\* \(6 - len\((.+)\)\)$' % _re.escape(nm), t)
+            if mo:
+                if mo.group(1) in ('%s[:6]' % nm,):
+                    n_ok += 1
+                    ctx.ob(rule, 'microseconds scaled by the length of the SLICED fraction (`%s`)' % t, True, where)
+                else:
+                    ctx.violation(rule, '%s::parse_embedded_scalar' % FJ, t,
+                                  'the well-formed value "h:08:12:05.1234567" (seven fraction digits): 10 ** (6 - 7) is the float '
+                                  '0.1, the microsecond becomes a float and datetime.time raises TypeError',
+                                  'the fraction is cut to six digits but scaled by its unsliced length', file=FJ,
+                                  line=e.lineno, engine='E7')
+                break
+        if mo:
+            continue
+        ctx.error(rule, 'time branch: microsecond expression `%s` not tabled; cannot decide' % t[:80])
+    for fld in ('hour', 'minute', 'second'):
+        v = kw.get(fld)
+        if v is None:
+            continue
+        vs = [v]
+        if isinstance(v, ast.Name):
+            vs = [d.value for d in ast.walk(block) if isinstance(d, ast.Assign) and len(d.targets) == 1 and norm(d.targets[0]) == v.id]
+        for e in vs:
+            if (isinstance(e, ast.Constant) and e.value == 0) or (isinstance(e, ast.Call) and norm(e.func) == 'int' and len(e.args) == 1):
+                continue
+            ctx.error(rule, 'time branch: %s = `%s` is not int(<digits>); cannot decide' % (fld, norm(e)[:60]))
+    ctx.count('time-of-day microsecond expressions', len(exprs))
